@@ -14,7 +14,7 @@ from typing import Dict, List
 
 class LockSpec:
     def __init__(self, cls_qual, guarded: Dict[str, str], atomic_read_ok=(), holds=(), props=(), owner="self",
-                 external_modules=(), note="", init_phase=(), guarded_foreign=None):
+                 external_modules=(), note="", init_phase=(), guarded_foreign=None, snapshot_order=()):
         self.cls_qual = cls_qual
         self.guarded = dict(guarded)            # field -> lock field
         self.atomic_read_ok = set(atomic_read_ok)   # fields whose single unlocked READ of an immutable value is allowed
@@ -26,6 +26,10 @@ class LockSpec:
         # attribute of OTHER objects (any receiver but self) that this class only touches under one of its locks,
         # e.g. Router reads / writes <LocTE>.ls_pending only inside _ls_lock (it is the "lookup in progress" decision state)
         self.guarded_foreign = dict(guarded_foreign or {})
+        # (a, b, why): every entry of a refers to an entry of b that was added before it (and b only shrinks after a does), so
+        # a method that looks at both in separate critical sections must read a first: reading b first can miss the entry
+        # of b that a later-read entry of a depends on
+        self.snapshot_order = list(snapshot_order)
 
 
 def _with_locks(node: ast.With):
@@ -393,6 +397,27 @@ def check(repo, spec: LockSpec):
             out.append({"name": f"{spec.cls_qual}.{mname}/locks-only-by-with", "line": v.raw_acquire[0],
                         "status": "refuted", "kind": "ownership",
                         "detail": "explicit acquire()/release(): lexical ownership reasoning does not apply"})
+    for a, b, why in spec.snapshot_order:
+        for mname, fn in ci.methods.items():
+            if mname == "__init__":
+                continue
+            first = {}
+            for n in ast.walk(fn):
+                flds = set()
+                if isinstance(n, ast.Attribute) and isinstance(n.value, ast.Name) and n.value.id == "self" and isinstance(n.ctx, ast.Load):
+                    if n.attr in (a, b):
+                        flds.add(n.attr)
+                if isinstance(n, ast.Call) and isinstance(n.func, ast.Attribute) and isinstance(n.func.value, ast.Name) \
+                        and n.func.value.id == "self" and n.func.attr in method_reads:
+                    flds |= method_reads[n.func.attr] & {a, b}
+                for f in flds:
+                    first[f] = min(first.get(f, n.lineno), n.lineno)
+            if a in first and b in first:
+                ok = first[a] <= first[b]
+                out.append({"name": f"{spec.cls_qual}.{mname}/snapshot-order:{a}-before-{b}", "line": first[b], "status": "proved" if ok else "refuted",
+                            "kind": "ownership",
+                            "detail": (f"self.{a} is read (line {first[a]}) before self.{b} (line {first[b]})" if ok else
+                                       f"self.{b} is read at line {first[b]}, before self.{a} (line {first[a]}): {why}")})
     # methods declared to run under a lock: every call site must hold it
     for h, lock in spec.holds.items():
         if lock is None:
